@@ -444,3 +444,161 @@ func TestBigStore(t *testing.T) {
 		disk = nil
 	}
 }
+
+// ---------------------------------------------------------------------------------------------
+// Two nodes: every message is stored only on the node that received the publish; a query on one node surveys the
+// other one (the harness plays the cluster surveyor: it hands the request to the peer store's OnSurvey and returns
+// its answer). The result must still be the most recent `limit` matching messages of the union.
+
+type peerSurveyor struct{ peer func() storage.Storage }
+
+type oneShot struct{ resp [][]byte }
+
+func (o oneShot) Gather(time.Duration) [][]byte { return o.resp }
+
+func (p *peerSurveyor) Query(typ string, payload []byte) (message.Awaiter, error) {
+	if out, ok := p.peer().OnSurvey(typ, payload); ok {
+		return oneShot{[][]byte{out}}, nil
+	}
+	return oneShot{}, nil
+}
+
+// NodeMsg: a message stored on node Node at second T (all seconds distinct within a case).
+type NodeMsg struct {
+	Node   int      `json:"node"`
+	Levels []string `json:"levels"`
+	T      int      `json:"t"`
+}
+
+// TwoNodeCase is a two-node store and queries issued at either node.
+type TwoNodeCase struct {
+	Msgs []NodeMsg `json:"msgs"`
+	Qs   []struct {
+		At     int      `json:"at"`
+		Filter []string `json:"filter"`
+		Limit  int      `json:"limit"`
+	} `json:"qs"`
+}
+
+func genTwoNode(t *rapid.T) TwoNodeCase {
+	var c TwoNodeCase
+	n := rapid.IntRange(1, 20).Draw(t, "n")
+	perm := rapid.Permutation(func() []int {
+		v := make([]int, 40)
+		for i := range v {
+			v[i] = i
+		}
+		return v
+	}()).Draw(t, "times")
+	for i := 0; i < n; i++ {
+		m := NodeMsg{Node: rapid.IntRange(0, 1).Draw(t, "node"), T: perm[i]}
+		for j, d := 0, rapid.IntRange(1, 3).Draw(t, "depth"); j < d; j++ {
+			m.Levels = append(m.Levels, rapid.SampledFrom([]string{"a", "a", "b"}).Draw(t, "lv"))
+		}
+		c.Msgs = append(c.Msgs, m)
+	}
+	for i, k := 0, rapid.IntRange(1, 5).Draw(t, "nq"); i < k; i++ {
+		q := struct {
+			At     int      `json:"at"`
+			Filter []string `json:"filter"`
+			Limit  int      `json:"limit"`
+		}{At: rapid.IntRange(0, 1).Draw(t, "at"), Limit: rapid.SampledFrom([]int{0, 1, 1, 2, 3, 5, 100}).Draw(t, "limit")}
+		q.Filter = []string{rapid.SampledFrom([]string{"a", "a", "b"}).Draw(t, "f0")}
+		if rapid.Bool().Draw(t, "deeper") {
+			q.Filter = append(q.Filter, rapid.SampledFrom([]string{"a", "b", "+"}).Draw(t, "f1"))
+		}
+		c.Qs = append(c.Qs, q)
+	}
+	return c
+}
+
+var twoNodes [2]*storage.InMemory
+
+func runTwoNode(c TwoNodeCase) vkit.Result {
+	vkit.Quiet()
+	if twoNodes[0] == nil {
+		for i := range twoNodes {
+			i := i
+			s := storage.NewInMemory(&peerSurveyor{peer: func() storage.Storage { return twoNodes[1-i] }})
+			if err := s.Configure(map[string]interface{}{}); err != nil {
+				panic(err)
+			}
+			twoNodes[i] = s
+		}
+	}
+	caseNo++
+	contract := 0x30000000 + caseNo*8
+	base := time.Now().Unix() - 1000
+	type rec2 struct {
+		levels []string
+		time   int64
+		id     string
+		node   int
+	}
+	var recs []rec2
+	for i, m := range c.Msgs {
+		msg := message.New(ssid(contract, m.Levels), []byte(strings.Join(m.Levels, "/")+"/"), []byte{byte(i)})
+		msg.ID.SetTime(base + int64(m.T))
+		msg.TTL = 100000
+		recs = append(recs, rec2{m.Levels, base + int64(m.T), string(msg.ID), m.Node})
+		if err := twoNodes[m.Node].Store(msg); err != nil {
+			return vkit.Failf("store: %v", err)
+		}
+	}
+	nontrivial := false
+	for qi, q := range c.Qs {
+		var cand []rec2
+		for _, r := range recs {
+			if len(q.Filter) > len(r.levels) {
+				continue
+			}
+			ok := true
+			for i, f := range q.Filter {
+				if f != "+" && f != r.levels[i] {
+					ok = false
+				}
+			}
+			if ok {
+				cand = append(cand, r)
+			}
+		}
+		sort.Slice(cand, func(i, j int) bool { return cand[i].time > cand[j].time })
+		exp := cand
+		if len(exp) > q.Limit {
+			exp = exp[:q.Limit]
+		}
+		got, err := twoNodes[q.At].Query(ssid(contract, q.Filter), time.Unix(0, 0), time.Unix(0, 0), nil, q.Limit)
+		if err != nil {
+			return vkit.Failf("query: %v", err)
+		}
+		want := map[string]rec2{}
+		remote := false
+		for _, r := range exp {
+			want[r.id] = r
+			if r.node != q.At {
+				remote = true
+			}
+		}
+		if len(got) != len(exp) {
+			return vkit.Failf("query %d at node %d (filter %v, limit %d): %d messages returned, expected the %d most recent of the %d matching messages stored on both nodes", qi, q.At, q.Filter, q.Limit, len(got), len(exp), len(cand))
+		}
+		for _, m := range got {
+			if _, ok := want[string(m.ID)]; !ok {
+				return vkit.Failf("query %d at node %d (filter %v, limit %d): returned the message of second %d on %s, which is not among the %d most recent matching messages of the cluster (seconds %v)",
+					qi, q.At, q.Filter, q.Limit, m.Time()-base, m.Channel, len(exp), func() (o []int64) {
+						for _, r := range exp {
+							o = append(o, r.time-base)
+						}
+						return
+					}())
+			}
+			delete(want, string(m.ID))
+		}
+		if remote && len(cand) > len(exp) {
+			nontrivial = true
+		}
+	}
+	return vkit.OK(nontrivial, "two-node-survey")
+}
+
+func TestQueryTwoNodes(t *testing.T) { vkit.Check(t, genTwoNode, runTwoNode) }
